@@ -141,6 +141,32 @@ def funcNamesOut (l : List (Nat × String)) (funcMap : List (Nat × Nat)) : List
     | some s, some j => some (j, s)
     | _, _ => none)
 
+/-- one element segment through parse and emit -/
+def rtElem (funcMap : List (Nat × Nat)) (maps : IdMaps) (e : ElemM) : Option ElemM :=
+  let mode := match e.mode with
+    | .active t off => (mapCExpr maps off).map fun o =>
+        -- the table operand is given explicitly only when its index is not 0
+        ElemModeM.active (match t.getD 0 with | 0 => none | k => some k) o
+    | x => some x
+  let items := match e.items with
+    | .funcs fs => (fs.mapM (assoc funcMap)).map ElemItemsM.funcs
+    | .exprs ty es => (es.mapM (mapCExpr maps)).map (ElemItemsM.exprs ty)
+  match mode, items with
+  | some md, some it =>
+    let flag := elemFlag md it
+    -- encodings 2 and 6 carry an explicit table index, which a decoder reports
+    let md' := match md with
+      | .active none o => if flag = 2 || flag = 6 then ElemModeM.active (some 0) o else md
+      | x => x
+    some (⟨flag, md', it⟩ : ElemM)
+  | _, _ => none
+
+/-- one data segment through parse and emit -/
+def rtData (maps : IdMaps) (d : DataM) : Option DataM :=
+  match d.mode with
+  | .active mem off => (mapCExpr maps off).map fun o => (⟨dataFlag (.active mem o), .active mem o, d.bytes⟩ : DataM)
+  | .passive => some ⟨1, .passive, d.bytes⟩
+
 /-- the whole round trip; `none` = walrus panics or rejects in the model -/
 def roundTripModule (m : ModuleM) : Option ModuleM :=
   let nif := importedCount m "f"
@@ -172,28 +198,8 @@ def roundTripModule (m : ModuleM) : Option ModuleM :=
       let start := match m.start with
         | none => some none
         | some s => (assoc funcMap s).map some
-      let elems := m.elems.mapM fun e =>
-        let mode := match e.mode with
-          | .active t off => (mapCExpr maps off).map fun o =>
-              -- the table operand is given explicitly only when its index is not 0
-              ElemModeM.active (match t.getD 0 with | 0 => none | k => some k) o
-          | x => some x
-        let items := match e.items with
-          | .funcs fs => (fs.mapM (assoc funcMap)).map ElemItemsM.funcs
-          | .exprs ty es => (es.mapM (mapCExpr maps)).map (ElemItemsM.exprs ty)
-        match mode, items with
-        | some md, some it =>
-          let flag := elemFlag md it
-          -- encodings 2 and 6 carry an explicit table index, which a decoder reports
-          let md' := match md with
-            | .active none o => if flag = 2 || flag = 6 then ElemModeM.active (some 0) o else md
-            | x => x
-          some (⟨flag, md', it⟩ : ElemM)
-        | _, _ => none
-      let datas := m.datas.mapM fun d =>
-        match d.mode with
-        | .active mem off => (mapCExpr maps off).map fun o => (⟨dataFlag (.active mem o), .active mem o, d.bytes⟩ : DataM)
-        | .passive => some ⟨1, .passive, d.bytes⟩
+      let elems := m.elems.mapM (rtElem funcMap maps)
+      let datas := m.datas.mapM (rtData maps)
       let anyPassive := m.datas.any fun d => match d.mode with | .passive => true | _ => false
       let anyUse := pfs.any fun f =>
         let ar := PSeqs.toArena f.seqs
